@@ -45,8 +45,12 @@ Inductive dump1 :=
 | DFull (cells : list (Z * Z))                         (* list(block) *)
 | DDigest (n dg : Z) (near : list (Z * Z)).            (* len, digest of the values in order, some cells *)
 
+(* what the real ServerDecoder did with a PDU that did not become a request object *)
+Inductive dec_outcome := DecodedNone | DecodeRaised (e : pyexn).
+
 Inductive hitem :=
 | HReq (w : wreq) (r : req) (o : obs_rsp) (faulted : bool) (pdu : list Z)   (* pdu = bytes([fc]) + response.encode(), [-1] if encode raised *)
+| HUndecoded (w : wreq) (d : dec_outcome)      (* the PDU was generated and sent, but never reached execute *)
 | HDump (ds : list dump1).
 
 (* position-weighted sum (no modulus: Z is unbounded and division is slow under vm_compute) *)
@@ -126,6 +130,11 @@ Fixpoint model_hist (st : fstore) (h : list hitem) : bool :=
           (let '(st', m) := serve X (faulty_ops C) st r in rsp_matches m o && model_hist st' t)
       | Raise _ => false
       end
+  | HUndecoded w d :: t =>
+      match decode_attrs w, d with
+      | Raise e, DecodeRaised e' => pyexn_eqb e e' && model_hist st t
+      | _, _ => false
+      end
   | HDump ds :: t => all2 dump_matches (cx_blocks (fs_ctx st)) ds && model_hist st t
   end.
 
@@ -200,6 +209,20 @@ Fixpoint dumps_ok (l : ldesc) (s : astate) (b : nat) (ds : list bdesc) (os : lis
   | _, _ => false
   end.
 
+(* the PDU carries less data than its quantity / byte count announce: a truncated (malformed)
+   frame.  The property still demands exception 03 when the header fields themselves are illegal or
+   contradict each other; otherwise a truncated frame is not constrained by it (C12's territory). *)
+Definition wire_truncated (w : wreq) : bool :=
+  match w with
+  | WWriteCoils _ n _ data => Z.of_nat (length data) <? (n + 7) / 8
+  | WWriteRegs _ n _ data => Z.of_nat (length data) <? 2 * n
+  | WRWM _ _ _ wn _ data => Z.of_nat (length data) <? 2 * wn
+  | _ => false
+  end.
+
+Definition demands_03 (s : astate) (w : wreq) : bool :=
+  match spec_outcome s w with Some 3 => true | _ => false end.
+
 Fixpoint prop_hist (l : ldesc) (s : astate) (h : list hitem) : bool :=
   match h with
   | [] => true
@@ -208,9 +231,13 @@ Fixpoint prop_hist (l : ldesc) (s : astate) (h : list hitem) : bool :=
       then (* datastore failure: exception 04 with fc|0x80, and nothing has changed *)
            let want := SExc (Z.lor (wfc w) 128) 4 in
            option_eqb srsp_eqb (oview o) (Some want) && list_eqb Z.eqb pdu (spec_rsp_pdu want) && prop_hist l s t
+      else if wire_truncated w && negb (demands_03 s w) then true     (* unconstrained; checking stops here *)
       else let '(s', want) := spec_exec s w in
            (* the response object AND the bytes it encodes to *)
            option_eqb srsp_eqb (oview o) (Some want) && list_eqb Z.eqb pdu (spec_rsp_pdu want) && prop_hist l s' t
+  | HUndecoded w _ :: t =>
+      (* no response object at all: a violation exactly when the wire fields demand exception 03 *)
+      negb (demands_03 s w) && prop_hist l s t
   | HDump ds :: t => dumps_ok l s O (l_blocks l) ds && prop_hist l s t
   end.
 
